@@ -139,10 +139,11 @@ def main(ctx, replay=None):
                 alt = [x for x in tdclasses if (x[0] == 0.0) != (tmin == 0.0)] or [x for x in tdclasses if x != (tmin, dt)]
                 if alt:
                     t2, d2 = alt[int(rng.integers(0, len(alt)))]
-                    ds.settings.update({"T_MIN": t2, "DT": d2})
+                    ds.settings.update({"T_MIN": t2, "DT": d2, "DT_SAMPLE": d2})      # (QHA wants the sampling step to be a multiple of the grid step)
                     case2 = dict(case, tmin=t2, dt=d2, follows_same_shape=True)
                     ctx.count(case2)
                     try:
+                        ds.fit_pressure_window(wd.sub(f"c{n}b"))                      # requested pressures inside the range computed on THIS temperature grid
                         calc2 = run(ds.write(wd.sub(f"c{n}b")))
                     except Exception as ex:
                         ctx.violation(f"calculation does not complete for the valid configuration {case2} (run after {case['tmin']}/{case['dt']} on the same files): {ex!r}",
